@@ -1,33 +1,7 @@
 // Harnesses mounted at the end of poulpy-hal/src/lib.rs (cfg(kani)).
 include!(concat!(env!("POULPY_VERIF_KX"), "/common.rs"));
-use crate::layouts::{FillUniform, NoiseInfos, VecZnx, ZnxView, ZnxViewMut};
+use crate::layouts::{FillUniform, VecZnx, ZnxView, ZnxViewMut};
 use crate::source::Source;
-
-// ------------------------------------------------------------------------------------------------
-// C01 / C06 — where the fresh error is placed: NoiseInfos::target_limb_and_scale (integer part; loop-free, complete)
-//   limb == ceil(k/base2k) - 1,  e := (limb+1)*base2k - k in [0, base2k)  so that  err * 2^e * 2^{-(limb+1) base2k} == err * 2^{-k}
-// ------------------------------------------------------------------------------------------------
-fn exp2_stub(x: f64) -> f64 { x } // records the exponent: the harness checks the *argument* of exp2
-
-#[kani::proof]
-#[kani::unwind(66)]
-#[kani::solver(kissat)]
-#[kani::stub(f64::exp2, exp2_stub)]
-fn c01_noise_target_limb_and_scale() {
-    let k: usize = kani::any();
-    kani::assume(k >= 1 && k <= (1usize << 32));
-    let ni = NoiseInfos { k, sigma: 3.2, bound: 19.2 };
-    // every radix 1..=64 as a constant (division by a constant is cheap for the solver): complete in k and base2k
-    let mut base2k: usize = 1;
-    while base2k <= 64 {
-        let (limb, e) = ni.target_limb_and_scale(base2k);
-        assert!(limb * base2k < k && k <= (limb + 1) * base2k, "C01:error limb == ceil(k/base2k) - 1 (precision k lies in limb `limb`)");
-        let ee = ((limb + 1) * base2k - k) as f64;
-        assert!(e == ee && ee >= 0.0 && ee < base2k as f64, "C01:scale exponent == (limb+1)*base2k - k in [0, base2k)");
-        base2k += 1;
-    }
-    kani::cover!(k == 54, "C01:reachable");
-}
 
 // ------------------------------------------------------------------------------------------------
 // C06 — uniform mask sampling: Source::next_u64n and VecZnx::fill_uniform, with the ChaCha8 stream abstracted to a symbolic tape
